@@ -14,6 +14,7 @@ bit-identical.  Nothing is claimed inside the cone.  Dense operators with struct
 whole batch, "finite checks" that rewrite a tensor and fused kernels that sum over channels all fail it; a cascade of
 convolutions cannot.
 """
+import sys
 import numpy as np
 
 from . import rt, history
@@ -178,10 +179,10 @@ def groups(prop, rng, tier):
             G.append(('SWTForward(J=%d, %s) on %dx%d' % (J, wave, N, N), lambda t, mod=mod: mod(t), x, where, info, Lm, True))
     if prop in ('C03', 'C04', 'C12', 'C07', 'C16'):
         dt = torch.float32 if prop == 'C16' else f64
-        for (bi, qs, Lm, N) in (('near_sym_a', 'qshift_a', 10, 128), ('legall', 'qshift_06', 10, 64)):
-            kw = dict(J=2, biort=bi, qshift=qs)
+        for (bi, qs, Lm, N, Jd) in (('near_sym_a', 'qshift_a', 10, 128, 2), ('legall', 'qshift_06', 10, 64, 2), ('near_sym_a', 'qshift_a', 10, 100, 3)):
+            kw = dict(J=Jd, biort=bi, qshift=qs)
             if prop == 'C12':
-                kw.update(include_scale=[True, True])
+                kw.update(include_scale=[True] * Jd)
             mod = DTCWTForward(**kw).to(dt)
             x = img((2, 2, N, N), dt); where = (1, 1, N // 2, N // 2 + 1)
 
@@ -193,8 +194,9 @@ def groups(prop, rng, tier):
                 return ((0, 1), (2, 3), j, 2 ** j, (where[2], where[3]), (N, N))
             G.append(('DTCWTForward(%s) on %dx%d' % (', '.join('%s=%s' % kv for kv in sorted(kw.items())), N, N), lambda t, mod=mod: mod(t), x, where, info, Lm, False))
     if prop in ('C11', 'C04', 'C07'):
-        for (bi, qs, Lm, N) in (('near_sym_a', 'qshift_a', 10, 64), ('near_sym_b', 'qshift_b', 19, 128), ('antonini', 'qshift_c', 16, 128)):
-            fw = DTCWTForward(J=2, biort=bi, qshift=qs).double(); iv = DTCWTInverse(biort=bi, qshift=qs).double()
+        for (bi, qs, Lm, N, Jd) in (('near_sym_a', 'qshift_a', 10, 64, 2), ('near_sym_b', 'qshift_b', 19, 128, 2), ('antonini', 'qshift_c', 16, 128, 2), ('near_sym_a', 'qshift_a', 10, 100, 3),
+                                    ('legall', 'qshift_06', 10, 50, 4)):
+            fw = DTCWTForward(J=Jd, biort=bi, qshift=qs).double(); iv = DTCWTInverse(biort=bi, qshift=qs).double()
             with history.off(), torch.no_grad():
                 yl, yh = fw(img((2, 2, N, N)))
             for lev in (0, 1):
@@ -208,17 +210,19 @@ def groups(prop, rng, tier):
                 def info(k, a, where=where, lev=lev):
                     s = 2 ** (lev + 1)
                     return ((0, 1), (2, 3), lev + 1, 1.0, (where[3] * s, where[4] * s), (a.shape[2], a.shape[3]))
-                G.append(('DTCWTInverse(%s, %s): one coefficient of one orientation at level %d' % (bi, qs, lev + 1), call, band, where, info, Lm, False))
+                G.append(('DTCWTInverse(%s, %s) of a %d-level pyramid of a %dx%d image: one coefficient of one orientation at level %d' % (bi, qs, Jd, N, N, lev + 1), call, band, where, info, Lm, False))
     if prop in ('C08', 'C09', 'C16'):
         dt = torch.float32 if prop == 'C16' else f64
-        for (name, mod, C, Lm) in (('ScatLayer()', ScatLayer().to(dt), 2, 7), ('ScatLayer(near_sym_b_bp, magbias=0.1)', ScatLayer(biort='near_sym_b_bp', magbias=0.1).to(dt), 2, 19),
+        for (name, mod, C, Lm) in (('ScatLayerj2() ', ScatLayerj2().to(dt), 2, 10), ('ScatLayer() ', ScatLayer().to(dt), 2, 7), ('ScatLayer()', ScatLayer().to(dt), 2, 7), ('ScatLayer(near_sym_b_bp, magbias=0.1)', ScatLayer(biort='near_sym_b_bp', magbias=0.1).to(dt), 2, 19),
                                    ('ScatLayer(combine_colour)', ScatLayer(combine_colour=True).to(dt), 3, 7), ('ScatLayerj2()', ScatLayerj2().to(dt), 1, 10)):
             N = 128 if 'j2' in name else 64
+            if name.endswith(' '):
+                N = 28 if 'j2' in name else 27          # sizes the layers extend first (not a multiple of 8 / odd)
             x = img((3, C, N, N), dt) * 0.25; where = (1, 0, N // 2, N // 2)
             colour = 'colour' in name
 
             def info(k, a, N=N, where=where, colour=colour, j2='j2' in name):
-                s = N // a.shape[2]
+                s = max(1, int(round(N / a.shape[2])))
                 return ((0, None if colour else None), (2, 3), (2 if j2 else 1), float(s), (where[2], where[3]), (N, N))
             # channel axis of the scattering output mixes input channels and orientations: only the BATCH axis separates slices there
             G.append((name + ' on %dx%d' % (N, N), lambda t, mod=mod: mod(t), x, where, info, Lm + 2, False))
@@ -303,6 +307,23 @@ def forms(ck, name, call, x, replay, call_all=None):
                 if not ok:
                     ck.fail('tensor forms: %s given %s: output %d %s from what contiguous copies of the same values give' % (name, label, k, why), dict(replay, form=label))
                     return
+    # complex data through a module converted to the complex dtype (the filters are real: T(a + ib) = T(a) + i T(b)); an empty batch
+    with history.off(), torch.no_grad():
+        try:
+            base = [o for o in _tensors(call(x), [])]
+        except Exception:
+            base = None
+        if base is not None and x.shape[0] >= 1 and x.is_floating_point() and call_all is None and 'Inverse' not in name:
+            try:
+                e = [o for o in _tensors(call(x[:0]), [])]
+            except Exception:
+                e = None
+            if e is not None:
+                for k, (a, b) in enumerate(zip(e, base)):
+                    if a.dim() == b.dim() and a.dim() >= 2 and b.shape[0] == x.shape[0] and (a.shape[0] != 0 or tuple(a.shape[1:]) != tuple(b.shape[1:])):
+                        ck.fail('tensor forms: %s given an EMPTY batch returns output %d of shape %s; a batch of %d gives %s' % (name, k, tuple(a.shape), x.shape[0], tuple(b.shape)),
+                                dict(replay, form='empty batch'))
+                        return
     with history.off():
         for label, plain, make, ctx in variants:
             try:
@@ -483,6 +504,8 @@ def _cfgs(prop, rng):
     cfgs = []
     if prop in ('C01', 'C14', 'C17', 'C07', 'C02', 'C05', 'C15'):
         cfgs.append(('DWTForward(J=2, %s, zero)', lambda w: DWTForward(J=2, wave=w, mode='zero').double(), 'db4', 'sym4', lambda m: m(x4)))
+        cfgs.append(('DWTForward(J=2, %s, symmetric)', lambda w: DWTForward(J=2, wave=w, mode='symmetric').double(), 'db4', 'sym4', lambda m: m(x4)))
+        cfgs.append(('DWTForward(J=1, %s, reflect)', lambda w: DWTForward(J=1, wave=w, mode='reflect').double(), 'db3', 'sym3', lambda m: m(x4)))
         cfgs.append(('DWT1DForward(J=2, %s, periodization)', lambda w: DWT1DForward(J=2, wave=w, mode='periodization').double(), 'db4', 'sym4', lambda m: m(x4[:, :, 0])))
     if prop in ('C10', 'C02', 'C07', 'C15'):
         fw = DWTForward(J=2, wave='sym4', mode='zero').double()
@@ -498,6 +521,15 @@ def _cfgs(prop, rng):
         with history.off(), torch.no_grad():
             dl, dh = fwd(x4)
         cfgs.append(('DTCWTInverse(near_sym_a, %s)', lambda q: DTCWTInverse(biort='near_sym_a', qshift=q).double(), 'qshift_a', 'qshift_06', lambda m: m((dl, list(dh)))))
+        cfgs.append(('DTCWTInverse(near_sym_a, %s) with level 2 given as torch.tensor([]) and level 3 as a 0-d placeholder', lambda q: DTCWTInverse(biort='near_sym_a', qshift=q).double(),
+                     'qshift_a', 'qshift_06', lambda m: m((dl, [dh[0], torch.tensor([], dtype=torch.float64), torch.tensor(0.0, dtype=torch.float64)]))))
+        cfgs.append(('DTCWTInverse(near_sym_a, %s) with the low-pass given as torch.tensor([])', lambda q: DTCWTInverse(biort='near_sym_a', qshift=q).double(),
+                     'qshift_a', 'qshift_06', lambda m: m((torch.tensor([], dtype=torch.float64), list(dh)))))
+    if prop in ('C08', 'C09', 'C16', 'C15'):
+        from pytorch_wavelets import ScatLayer
+        x3 = torch.tensor(np.array([rng.randint(0, 255) for _ in range(2 * 3 * 32 * 32)], dtype=np.float32).reshape(2, 3, 32, 32))
+        cfgs.append(('ScatLayer(%s, combine_colour=True) in float32 on 0..255 data', lambda b_: ScatLayer(biort=b_, combine_colour=True).float(), 'near_sym_a', 'near_sym_b', lambda m: m(x3)))
+        cfgs.append(('ScatLayerj2(%s, combine_colour=True) in float32 on 0..255 data', lambda b_: ScatLayerj2(biort=b_, combine_colour=True).float(), 'near_sym_a', 'near_sym_b', lambda m: m(x3)))
     if prop in ('C08', 'C09', 'C15'):
         cfgs.append(('ScatLayerj2(near_sym_a, %s)', lambda q: ScatLayerj2(biort='near_sym_a', qshift=q).double(), 'qshift_a', 'qshift_06', lambda m: m(x4)))
     return cfgs
@@ -559,9 +591,10 @@ def reached(ck, prop):
     for nm, make, a, b, run in _cfgs(prop, ck.rng):
         name = nm % a
         with history.off(), torch.no_grad():
-            want = [t.numpy().copy() for t in _tensors(run(make(a)), [])]
+            want0 = [t.numpy().copy() for t in _tensors(run(make(a)), [])]
 
-        def check(label, f):
+        def check(label, f, ref=None):
+            want = ref if ref is not None else want0
             try:
                 with history.off():
                     got = [t.detach().numpy().copy() for t in _tensors(f(), [])]
@@ -573,7 +606,7 @@ def reached(ck, prop):
                 ck.fail('object / environment: %s %s returns %d outputs instead of %d' % (name, label, len(got), len(want)), {'oracle': 'locality', 'prop': prop, 'group': '__reached__'})
                 return False
             for k, (u, v) in enumerate(zip(got, want)):
-                if u.shape != v.shape or u.dtype != v.dtype or not (np.abs(u.astype(np.float64) - v.astype(np.float64)) <= 1e-9 * max(1.0, float(np.max(np.abs(v))) if v.size else 1.0)).all():
+                if u.shape != v.shape or u.dtype != v.dtype or not (np.abs(u.astype(np.float64) - v.astype(np.float64)) <= (1e-9 if u.dtype == np.float64 else 2e-6) * max(1.0, float(np.max(np.abs(v))) if v.size else 1.0)).all():
                     ck.fail('object / environment: %s %s: output %d %s from a plain call of a fresh instance' % (name, label, k, _close(u, v)[1]), {'oracle': 'locality', 'prop': prop, 'group': '__reached__'})
                     return False
             return True
@@ -615,14 +648,33 @@ def reached(ck, prop):
                 except Exception:
                     pass
             return run(m)
+        def copy_reconfigured():
+            m = make(a); other = copy.copy(m)
+            for attr, val in (('mode', 'symmetric' if getattr(m, 'mode', None) != 'symmetric' else 'zero'), ('J', 1), ('o_dim', 1), ('ri_dim', 2), ('magbias', 0.5), ('combine_colour', True),
+                              ('skip_hps', [True] * 8), ('include_scale', [True] * 8)):
+                if hasattr(other, attr):
+                    try:
+                        setattr(other, attr, val)
+                    except Exception:
+                        pass
+            return run(m)
+        def reregistered():
+            m = make(a)
+            for k_, v_ in reversed(list(m.named_buffers())):
+                if '.' in k_:
+                    continue
+                delattr(m, k_); m.register_buffer(k_, v_)
+            return run(m)
         reach = [('through copy.copy (buffers shared with the original)', ng(lambda: run(copy.copy(make(a))))),
+                 ('after its buffers were deleted and registered again under the same names in the opposite order', ng(reregistered)),
+                 ('after a shallow copy of it was re-configured (mode, J, layout, options set on the COPY)', ng(copy_reconfigured)),
                  ('as an instance of a subclass that overrides nothing', ng(lambda: run(as_class(Sub)))),
                  ('as an instance of a subclass whose forward calls super().forward', ng(lambda: run(as_class(Over)))),
                  ('through module.forward(...) instead of module(...)', ng(lambda: run(make(a).forward))),
                  ('with its argument passed by keyword (%s=...)' % pname, ng(lambda: run(lambda arg, m=make(a): m(**{pname: arg})))),
                  ('as a member of a Sequential that is switched to eval() and back', ng(lambda: run(in_parent(lambda p_: (p_.eval(), p_.train()))))),
-                 ('as a member of a Sequential after .double(), .to("cpu"), requires_grad_(False), zero_grad(), apply(visitor), share_memory()',
-                  ng(lambda: run(in_parent(lambda p_: (p_.double(), p_.to('cpu'), p_.requires_grad_(False), p_.zero_grad(), p_.apply(lambda m_: None), p_.share_memory()))))),
+                 ('as a member of a Sequential after .to(its own dtype), .to("cpu"), requires_grad_(False), zero_grad(), apply(visitor), share_memory()',
+                  ng(lambda: run(in_parent(lambda p_: (p_.to((list(p_.buffers()) + list(p_.parameters()))[0].dtype), p_.to('cpu'), p_.requires_grad_(False), p_.zero_grad(), p_.apply(lambda m_: None), p_.share_memory()))))),
                  ('after loading its own state saved with a prefix', ng(lambda: run(sd_prefix()))),
                  ('after load_state_dict(strict=False) of its own state plus an unknown key', ng(lambda: run(sd_extra()))),
                  ('after two hundred earlier calls on three shapes', ng(many_calls))]
@@ -652,7 +704,23 @@ def reached(ck, prop):
                 ('with oneDNN switched off (torch.backends.mkldnn.flags(enabled=False))', lambda: torch.backends.mkldnn.flags(enabled=False)),
                 ('with warnings turned into errors', lambda: env(lambda: (warnings.filters[:], warnings.simplefilter('error'))[0], lambda o: warnings.filters.__setitem__(slice(None), o))),
                 ('under torch.autograd.set_detect_anomaly(True)', lambda: torch.autograd.set_detect_anomaly(True)),
-                ('with NumPy floating-point errors raised (np.errstate(all="raise"))', lambda: np.errstate(all='raise'))]
+                ('with NumPy floating-point errors raised (np.errstate(all="raise"))', lambda: np.errstate(all='raise')),
+                ('with torch.set_float32_matmul_precision("medium")', lambda: env(lambda: (torch.get_float32_matmul_precision(), torch.set_float32_matmul_precision('medium'))[0],
+                                                                                   lambda o: torch.set_float32_matmul_precision(o))),
+                ('with np.printoptions(precision=2, suppress=True)', lambda: np.printoptions(precision=2, suppress=True))]
+        # a shallow copy that is then given another depth behaves like an instance that was given that depth itself
+        if hasattr(M, 'J') and isinstance(getattr(M, 'J'), int) and M.J >= 2:
+            try:
+                with history.off(), torch.no_grad():
+                    m2 = make(a); m2.J = m2.J - 1
+                    ref2 = [t.numpy().copy() for t in _tensors(run(m2), [])]
+            except Exception:
+                ref2 = None
+            if ref2 is not None:
+                def copy_set():
+                    c_ = copy.copy(make(a)); c_.J = c_.J - 1; return run(c_)
+                if not check('as a shallow copy whose J was then lowered by one (against an instance whose own J was lowered)', ng(copy_set), ref2):
+                    return
         ok = True
         for label, f in reach:
             ok = check(label, f) and ok
@@ -665,8 +733,215 @@ def reached(ck, prop):
         ck.oracle_ok(('reached', name), group='object-and-environment', sample={'what': 'object / environment: ' + name, 'variants': len(reach) + 2 * len(envs)})
 
 
+def optimized(ck, prop):
+    """the interpreter flag `-O` (PYTHONOPTIMIZE) strips `assert` statements: a transform must not compute anything inside one.  The
+    outputs (and gradients) of the property's objects are computed once more in a `python -O` child process and compared."""
+    import subprocess, tempfile, pickle, os
+    from . import optimized_child
+    seed = ck.rng.randrange(2 ** 31)
+    with tempfile.TemporaryDirectory() as d:
+        f = os.path.join(d, 'o.pkl')
+        r = subprocess.run([sys.executable, '-O', '-m', 'harness.optimized_child', prop, str(seed), f], cwd=os.path.dirname(os.path.dirname(os.path.abspath(__file__))),
+                           capture_output=True, timeout=600)
+        if r.returncode != 0 or not os.path.exists(f):
+            if len(ck.oracle['samples']) < 6:
+                ck.oracle['samples'].append({'python -O': 'child did not finish: %s' % r.stderr.decode()[-200:]})
+            return
+        child = pickle.load(open(f, 'rb'))
+    if child.pop('__debug__', True):
+        return
+    mine = optimized_child.compute(prop, seed)
+    for name, (st, val) in mine.items():
+        cst, cval = child.get(name, ('missing', None))
+        rep = {'oracle': 'locality', 'prop': prop, 'group': '__optimized__'}
+        if st != cst:
+            ck.fail('python -O: %s %s with asserts stripped (%s) but %s with them (%s)' % (name, 'raises' if cst == 'raise' else 'returns', cval if cst == 'raise' else '',
+                                                                                            'raises' if st == 'raise' else 'returns', val if st == 'raise' else ''), rep)
+            return
+        if st == 'ok':
+            if len(val) != len(cval):
+                ck.fail('python -O: %s returns %d outputs with asserts stripped, %d with them' % (name, len(cval), len(val)), rep); return
+            for k, (a, b) in enumerate(zip(cval, val)):
+                ok, why = _close(a, b)
+                if not ok:
+                    ck.fail('python -O: %s: output %d %s between an interpreter that strips asserts and one that does not' % (name, k, why), rep); return
+    ck.oracle_ok(('optimized', prop), group='python -O', sample={'what': 'python -O child agrees on %d groups' % len(mine)})
+
+
+def loader_env(ck):
+    """the table loader in other process environments, FIRST loads included (the cache is emptied first): warnings turned into errors,
+    NumPy errors raised, other NumPy print options, deterministic algorithms - every shipped table loads and is the table a plain load
+    returns"""
+    import warnings, contextlib, torch
+    import pytorch_wavelets.dtcwt.coeffs as C
+    names1 = ['antonini', 'legall', 'near_sym_a', 'near_sym_b', 'near_sym_b_bp', 'farras', 'near_sym_a2']
+    names2 = ['qshift_06', 'qshift_a', 'qshift_b', 'qshift_c', 'qshift_d', 'qshift_b_bp', 'qshift_32']
+
+    def load_all():
+        res = {}
+        for n in names1:
+            try:
+                res['level1:' + n] = ('ok', [np.array(a) for a in C.level1(n)])
+            except Exception as e:
+                res['level1:' + n] = ('raise', type(e).__name__)
+        for n in names2:
+            try:
+                res['qshift:' + n] = ('ok', [np.array(a) for a in C.qshift(n)])
+            except Exception as e:
+                res['qshift:' + n] = ('raise', type(e).__name__)
+        return res
+    want = load_all()
+
+    @contextlib.contextmanager
+    def werr():
+        old = warnings.filters[:]
+        warnings.simplefilter('error')
+        try:
+            yield
+        finally:
+            warnings.filters[:] = old
+    envs = [('with warnings turned into errors', werr), ('with NumPy floating-point errors raised', lambda: np.errstate(all='raise')),
+            ('with np.printoptions(precision=2, suppress=True)', lambda: np.printoptions(precision=2, suppress=True))]
+    for label, cm in envs:
+        saved = dict(C.COEFF_CACHE)
+        C.COEFF_CACHE.clear()
+        try:
+            with cm():
+                got = load_all()
+        finally:
+            C.COEFF_CACHE.clear(); C.COEFF_CACHE.update(saved)
+        for k, (st, val) in want.items():
+            gst, gval = got[k]
+            if st != gst or (st == 'ok' and (len(val) != len(gval) or any(not np.array_equal(a, b) for a, b in zip(val, gval)))):
+                ck.fail('loader environment: %s on a first load %s %s (a plain load %s)' % (k, label, 'raises ' + str(gval) if gst == 'raise' else 'returns other values',
+                                                                                        'raises ' + str(val) if st == 'raise' else 'returns the table'),
+                        {'oracle': 'locality', 'prop': 'C18', 'group': '__loader_env__'})
+                return
+    ck.oracle_ok(('loader-env',), group='object-and-environment', sample={'what': 'first loads of all 14 tables in %d environments' % len(envs)})
+
+
+def twins(ck, prop):
+    """the same object in OTHER NUMBER FORMATS the library accepts: a 16-bit copy (`.half()`, `.bfloat16()`) on 16-bit data agrees with the
+    float64 object to the accuracy of the format (outputs, and gradients for the gradient properties); a complex copy
+    (`.to(torch.complex128)`) on complex data gives `T(re) + i T(im)` (the filters are real).  A format the library refuses gives no
+    verdict."""
+    import torch, pywt
+    from pytorch_wavelets import DWTForward, DWTInverse, DWT1DForward, DWT1DInverse, DTCWTForward, DTCWTInverse, ScatLayer, ScatLayerj2
+    from pytorch_wavelets.dwt.transform2d import SWTForward
+    rng = ck.rng
+    def img(shape, lo=-9, hi=9):
+        return torch.tensor(np.array([rng.randint(lo, hi) for _ in range(int(np.prod(shape)))], dtype=np.float64).reshape(shape))
+    T = []          # (name, make() -> float64 module, inputs, call(module, inputs), with_grad, complex_ok)
+    fwd = lambda m, ins: m(ins[0])
+    inv = lambda m, ins: m((ins[0], list(ins[1:])))
+    if prop in ('C01', 'C02', 'C05', 'C07', 'C14', 'C17'):
+        for mode in ('zero', 'periodization', 'symmetric'):
+            T.append(('DWTForward(J=2, db2, %s)' % mode, lambda mode=mode: DWTForward(J=2, wave='db2', mode=mode).double(), [img((2, 2, 32, 32))], fwd, prop == 'C05' and mode != 'symmetric', True))
+        T.append(('DWT1DForward(J=2, db3, periodization)', lambda: DWT1DForward(J=2, wave='db3', mode='periodization').double(), [img((2, 2, 64))], fwd, prop == 'C05', True))
+    if prop in ('C02', 'C07', 'C10'):
+        for (mode, n) in (('periodization', 4100), ('zero', 300), ('periodization', 300)):
+            f1 = DWT1DForward(J=1, wave='db2', mode=mode).double()
+            with history.off(), torch.no_grad():
+                x0, hs = f1(img((1, 2, n)))
+            T.append(('DWT1DInverse(db2, %s) of a pyramid of a %d-sample signal' % (mode, n), lambda mode=mode: DWT1DInverse(wave='db2', mode=mode).double(), [x0] + list(hs), inv, False, True))
+        f2 = DWTForward(J=2, wave='db2', mode='periodization').double()
+        with history.off(), torch.no_grad():
+            yl, yh = f2(img((2, 2, 32, 32)))
+        T.append(('DWTInverse(db2, periodization)', lambda: DWTInverse(wave='db2', mode='periodization').double(), [yl] + list(yh), inv, False, True))
+    if prop == 'C13':
+        T.append(('SWTForward(J=2, db2)', lambda: SWTForward(J=2, wave='db2', mode='periodization').double(), [img((2, 2, 32, 32))], fwd, False, True))
+    if prop in ('C03', 'C06', 'C12', 'C04'):
+        T.append(('DTCWTForward(J=2)', lambda: DTCWTForward(J=2).double(), [img((2, 2, 32, 32))], fwd, prop == 'C06', False))
+    if prop in ('C08', 'C09', 'C16'):
+        T.append(('ScatLayer()', lambda: ScatLayer().double(), [img((2, 3, 32, 32)) * 0.25], fwd, prop == 'C09', False))
+        T.append(('ScatLayerj2(combine_colour=True)', lambda: ScatLayerj2(combine_colour=True).double(), [img((2, 3, 32, 32)) * 0.25], fwd, prop == 'C09', False))
+    rep = {'oracle': 'locality', 'prop': prop, 'group': '__twins__'}
+
+    def outs_and_grads(m, ins, with_grad):
+        if not with_grad:
+            with torch.no_grad():
+                return [o.detach() for o in _tensors(call(m, ins), []) if o.numel() > 1]
+        ins = [t.clone().requires_grad_(True) if i == 0 else t for i, t in enumerate(ins)]
+        outs = [o for o in _tensors(call(m, ins), []) if o.numel() > 1 and o.requires_grad]
+        cots = [(torch.arange(1, o.numel() + 1, dtype=torch.float64).reshape(o.shape) / o.numel()).to(o.dtype) for o in outs]
+        (g,) = torch.autograd.grad(outs, ins[0], cots)
+        return [o.detach() for o in outs] + [g]
+    for name, make, ins, call, with_grad, cplx in T:
+        with history.off():
+            try:
+                ref = outs_and_grads(make(), ins, with_grad)
+            except Exception:
+                continue
+            for dt, tol in ((torch.float16, 0.02), (torch.bfloat16, 0.12)):
+                try:
+                    got = outs_and_grads(make().to(dt), [t.to(dt) for t in ins], with_grad)
+                except Exception:
+                    continue
+                # the 16-bit object sees 16-bit DATA: the reference is the float64 object on the same (rounded) data
+                try:
+                    ref16 = outs_and_grads(make(), [t.to(dt).double() for t in ins], with_grad)
+                except Exception:
+                    continue
+                for k, (a_, b_) in enumerate(zip(got, ref16)):
+                    if a_.dtype != dt:
+                        ck.fail('number formats: %s converted to %s on %s data returns output %d as %s' % (name, dt, dt, k, a_.dtype), dict(rep, dtype=str(dt))); return
+                    sc = max(1.0, float(b_.abs().max()))
+                    d = float((a_.double() - b_).abs().max()) if a_.shape == b_.shape else float('inf')
+                    if not d <= tol * sc:
+                        what = 'the gradient' if (with_grad and k == len(got) - 1) else 'output %d' % k
+                        ck.fail('number formats: %s converted to %s on %s data: %s differs from the float64 object on the same data by %.3g (scale %.3g, far beyond the accuracy of the format)'
+                                % (name, dt, dt, what, d, sc), dict(rep, dtype=str(dt))); return
+            if cplx:
+                try:
+                    mc = make().to(torch.complex128)
+                    re_ = ins; im_ = [t.flip(-1) * 0.5 + 1.0 for t in ins]
+                    with torch.no_grad():
+                        got = [o for o in _tensors(call(mc, [a_ + 1j * b_ for a_, b_ in zip(re_, im_)]), []) if o.numel() > 1]
+                except Exception:
+                    got = None
+                if got is not None:
+                    with torch.no_grad():
+                        r1 = [o for o in _tensors(call(make(), re_), []) if o.numel() > 1]; r2 = [o for o in _tensors(call(make(), im_), []) if o.numel() > 1]
+                    for k, (g_, a_, b_) in enumerate(zip(got, r1, r2)):
+                        want = a_ + 1j * b_
+                        sc = max(1.0, float(want.abs().max()))
+                        if g_.shape != want.shape or not g_.is_complex() or float((g_ - want).abs().max()) > 1e-9 * sc:
+                            ck.fail('number formats: %s converted to complex128 on complex data: output %d is not T(re) + i T(im) (differs by %.3g, scale %.3g; dtype %s)'
+                                    % (name, k, float((g_ - want).abs().max()) if g_.shape == want.shape and g_.is_complex() else float('nan'), sc, g_.dtype), dict(rep, dtype='complex128')); return
+        ck.oracle_ok(('twins', name), group='number-formats', sample={'what': 'number formats: ' + name})
+
+
+def nearby_first(ck):
+    """the functional non-separable banks called with a NEARBY filter set first (the taps rounded to three decimals), also while NumPy
+    prints arrays with two decimals: a bank prepared for one filter set is never used for another"""
+    import torch, pywt
+    import pytorch_wavelets.dwt.lowlevel as L
+    rng = ck.rng
+    x = torch.tensor(np.array([rng.randint(-9, 9) for _ in range(2 * 16 * 16)], dtype=np.float64).reshape(1, 2, 16, 16))
+    co = torch.tensor(np.array([rng.randint(-9, 9) for _ in range(2 * 4 * 9 * 9)], dtype=np.float64).reshape(1, 2, 4, 9, 9))
+    for wn in ('db3', 'bior2.2', 'sym4'):
+        w = pywt.Wavelet(wn)
+        for mode in ('zero', 'periodization'):
+            for label, f, taps in (('afb2d_nonsep', lambda t, mode=mode: L.afb2d_nonsep(x, t, mode=mode), (np.array(w.dec_lo), np.array(w.dec_hi))),
+                                   ('sfb2d_nonsep', lambda t, mode=mode: L.sfb2d_nonsep(co, t, mode=mode), (np.array(w.rec_lo), np.array(w.rec_hi)))):
+                near = tuple(np.round(t, 3) for t in taps)
+                with history.off(), torch.no_grad():
+                    want = f(taps).numpy().copy()
+                    for env_label, cm in (('', lambda: np.printoptions()), (' while NumPy prints two decimals', lambda: np.printoptions(precision=2, suppress=True))):
+                        with cm():
+                            f(near)
+                            got = f(taps).numpy().copy()
+                        ok, why = _close(got, want)
+                        if not ok:
+                            ck.fail('nearby configuration first: %s(%s, %s) after a call with the same taps rounded to three decimals%s %s from its own first result' % (label, wn, mode, env_label, why),
+                                    {'oracle': 'locality', 'prop': 'C19', 'group': '__nearby__'})
+                            return
+    ck.oracle_ok(('nearby-first',), group='object-and-environment', sample={'what': 'non-separable banks after a call with nearby taps, two print settings'})
+
+
 def run_for(ck, prop, only=None):
     if prop == 'C18':
+        rt.guard(ck, loader_env, ck)
         return
     try:
         if prop == 'C15':
@@ -681,6 +956,12 @@ def run_for(ck, prop, only=None):
         rt.guard(ck, substituted, ck, prop)
     if only in (None, '__reached__'):
         rt.guard(ck, reached, ck, prop)
+    if only in (None, '__optimized__'):
+        rt.guard(ck, optimized, ck, prop)
+    if only in (None, '__twins__'):
+        rt.guard(ck, twins, ck, prop)
+    if prop == 'C19' and only in (None, '__nearby__'):
+        rt.guard(ck, nearby_first, ck)
     for g in gs:
         name, call, x, where, info, Lm, circular = g[:7]
         call_all = g[7] if len(g) > 7 else None
